@@ -337,8 +337,20 @@ def session_writers(prog, an, rep):
                     key = t.slice.value
                     ok = f.qname == SRV + '.auth._handle_authorize'
                     if key == 'admin':
-                        ok = ok and src(x.value) == \
-                            'user in bert_e.settings.admins'
+                        # <what session['user'] is set to> in
+                        # <bert_e>.settings.admins
+                        users = {src(y.value) for y in walk_local(
+                            f.node, include_root=False)
+                            if isinstance(y, ast.Assign) and
+                            len(y.targets) == 1 and
+                            src(y.targets[0]) == "session['user']"}
+                        v = x.value
+                        ok = ok and isinstance(v, ast.Compare) and \
+                            len(v.ops) == 1 and \
+                            isinstance(v.ops[0], ast.In) and \
+                            {src(v.left)} == users and \
+                            canon(f, v.comparators[0]) == \
+                            f.params[0] + '.settings.admins'
                     rep.check(ok, R, '%s sets session[%r]' % (f.qname, key),
                               f.where(x), 'session[%r] = %s in %s: the '
                               'privilege flag is not derived from the '
